@@ -77,9 +77,11 @@ def drive(op_factory, chunks, key=None):
 
 
 def frame_all(op_factory, items):
+    """frames of all items; an item that frame() refuses contributes nothing (the wire then
+    differs from the specified one: clause 'frame')"""
     import rx
     out = []
-    rx.from_(items).pipe(op_factory()).subscribe(on_next=out.append)
+    rx.from_(items).pipe(op_factory()).subscribe(on_next=out.append, on_error=lambda e: None)
     return out
 
 
@@ -89,7 +91,8 @@ def cut(seq, sizes):
     for n in sizes:
         chunks.append(seq[p:p + n])
         p += n
-    assert p == len(seq), (p, len(seq), sizes)
+    if p < len(seq):      # the real frame() produced something else than the sizes were
+        chunks.append(seq[p:])   # computed for: the trace is judged (and rejected) on the wire
     return chunks
 
 
@@ -313,6 +316,26 @@ def main(tier, replay):
             n = n - (p + len(items[-1])) + cutoff
         lp_traces.setdefault((p, order), []).append(
             lp_trace(items, cutoff, random_sizes(rng, n, rng.choice([1, 4, 50])), p, order))
+
+    # long streams and items at the limits of the prefix: more than 64 KiB delivered in one
+    # subscription through reads that never end on a frame boundary; the largest length a
+    # prefix can express (255 with one byte, 65535 with two)
+    def big_items(count, lo, hi):
+        return [bytes((j * 31 + k) % 251 for k in range(rng.randint(lo, hi))) for j in range(count)]
+    bigs = [(1, [255, 254, 0, 255], 7), (1, [255], 256), (2, [65535, 3, 0, 700, 1], 4096)]
+    bigs.append((rng.choice([2, 4, 8]), None, 1000))
+    if thorough:
+        bigs += [(1, None, 333), (4, [65536, 70000, 5], 65536), (2, [65535, 65535], 1 << 20)]
+    for (p, lens, read) in bigs:
+        order = rng.choice(['little', 'big'])
+        items = big_items(rng.randint(360, 400), 0 if p > 1 else 150, 255 if p == 1 else 480) if lens is None \
+            else [bytes((7 * k + n) % 253 for k in range(n)) for n in lens]
+        n = sum(len(i) + p for i in items)
+        sizes = [read] * (n // read) + ([n % read] if n % read else [])
+        lp_traces.setdefault((p, order), []).append(lp_trace(items, -1, sizes, p, order))
+    text = [''.join(chr(32 + (j * 7 + k) % 90) for k in range(rng.randint(0, 400))) for j in range(360)]
+    n = sum(len(i) + 1 for i in text)
+    line_traces.append(line_trace(text, 'tail', [1000] * (n // 1000) + [n % 1000 + 4]))
 
     V.phase('replay and random executions')
     # 4. validation by TLC --------------------------------------------------------
